@@ -799,6 +799,9 @@ func (m *Machine) exec(fr *Frame, in ssa.Instruction, isInit bool) {
 		var v Value = &MapObj{kt: mt.Key(), vt: mt.Elem()}
 		fr.env[x] = v
 	case *ssa.MapUpdate:
+		if _, isNil := m.get(fr, x.Map).(NilPtr); isNil {
+			m.require(False, "panic", "assignment to entry in nil map")
+		}
 		mo := m.get(fr, x.Map).(*MapObj)
 		k := m.get(fr, x.Key)
 		i := m.mapFind(mo, k)
@@ -812,6 +815,14 @@ func (m *Machine) exec(fr *Frame, in ssa.Instruction, isInit bool) {
 		switch a := m.get(fr, x.X).(type) {
 		case String:
 			fr.env[x] = m.strIndex(a, m.idx64(m.get(fr, x.Index).(*Term), x.Index.Type()))
+		case NilPtr: // lookup in a nil map: the zero value
+			mt := x.X.Type().Underlying().(*types.Map)
+			v := m.zero(mt.Elem())
+			if x.CommaOk {
+				fr.env[x] = Tuple{v, False}
+			} else {
+				fr.env[x] = v
+			}
 		case *MapObj:
 			i := m.mapFind(a, m.get(fr, x.Index))
 			var v Value
@@ -861,6 +872,8 @@ func (m *Machine) exec(fr *Frame, in ssa.Instruction, isInit bool) {
 		m.spawn(func() { m.callValue(fv, cc, args) }, "g@"+shortPos(m, x.Pos()))
 	case *ssa.Range:
 		switch c := m.get(fr, x.X).(type) {
+		case NilPtr:
+			fr.env[x] = &mapIter{m: &MapObj{}}
 		case *MapObj:
 			it := &mapIter{m: c}
 			fr.env[x] = it
